@@ -80,8 +80,8 @@ TrDefDerive ==
                 /\ Clause("C14." \o e.c.op \o ".wf", PostWF)
                 /\ Clause("C14." \o e.c.op \o ".outcome",
                           IF r.out = "ok" THEN e.out = "ok" ELSE e.out # "ok")
-                /\ Clause("C14." \o e.c.op \o ".errorclass", r.out = "ok" \/ e.out = "ok" \/ e.out = r.out)
-                /\ Clause("C14." \o e.c.op \o ".missing", ~ (r.out = "KeyError" /\ e.out = "KeyError") \/ e.ret = r.ret)
+                /\ Clause("obs.C14." \o e.c.op \o ".errorclass", r.out = "ok" \/ e.out = "ok" \/ e.out = r.out)
+                /\ Clause("obs.C14." \o e.c.op \o ".missing", ~ (r.out = "KeyError" /\ e.out = "KeyError") \/ e.ret = r.ret)
                 /\ Clause("C14." \o e.c.op \o ".value", ~ (r.out = "ok" /\ e.out = "ok") \/ (PostHas(e.new) /\ PostOf(e.new) = r.d))
                 /\ Clause("C14." \o e.c.op \o ".newobject", e.out # "ok" \/ e.isnew)
                 (* names of the sources that are not in the result are unknown to it (reading raises KeyError) *)
